@@ -34,7 +34,7 @@ RFC1918 = ",".join(ipgen.RFC1918)
 SAMPLE_TEXT = (
     "hostname rtr-zurich-gw\n"
     "interface Loopback0\n ip address 11.22.33.44 255.255.255.0\n ip address 10.1.2.3 255.255.255.252\n"
-    " ipv6 address 2001:db8:aa::1234/64\n ipv6 address fe80::1\n"
+    " ipv6 address 2001:db8:aa::1234/64\n ipv6 address fe80::1\n ip address 10.77.13.9 255.255.255.0\n ip route 192.168.200.1 172.31.9.9\n"
     "router bgp 65000\n neighbor 192.168.7.9 remote-as 64999\n neighbor 172.16.5.5 remote-as 12345\n"
     "enable secret 5 $1$wtHI$0rN7R8PKwC30AsCGA77vy.\n"
     "snmp-server community gothamRO ro 1\n"
@@ -253,7 +253,7 @@ def gen_accept(rng, src, dst, dump):
         if rng.random() < 0.4:
             o["preserve-prefixes"] = rng.choice(["10.0.0.0/8", "11.0.0.0/8,192.168.0.0/16", DEFAULT_PREFIXES, "0.0.0.0/0"])
         if rng.random() < 0.4:
-            o["preserve-addresses"] = rng.choice(["11.22.33.44", "11.22.33.0/24,8.8.4.4", "10.0.0.0/8"])
+            o["preserve-addresses"] = rng.choice(["11.22.33.44", "11.22.33.0/24,8.8.4.4", "10.0.0.0/8", "10.1.0.0/16", "192.168.7.0/24,172.16.5.5"])
         if rng.random() < 0.3:
             o["preserve-private-addresses"] = True
         if rng.random() < 0.4 and "undo" not in o:
@@ -411,7 +411,7 @@ def _defaults(ctx, case, nc, wd):
         a["preserve-private-addresses"] = True
         b["preserve-addresses"] = RFC1918
     else:
-        extra = rng.choice(["11.22.33.44", "8.8.4.0/24"])
+        extra = rng.choice(["11.22.33.44", "8.8.4.0/24", "10.1.0.0/16", "192.168.7.0/24", "172.16.5.5", "10.1.2.3,192.168.7.9"])
         a["preserve-private-addresses"] = True
         a["preserve-addresses"] = extra
         b["preserve-addresses"] = extra + "," + RFC1918
